@@ -53,7 +53,7 @@ pub fn gen_glyph_set(rng: &mut Rng, shape: usize) -> Vec<u16> {
             v.push(0xFFFF)
         }
         5 => {
-            let len = 1 + rng.below(*rng.pick(&[4u64, 40, 400, 4000])) as u32;
+            let len = 1 + { let m__ = *rng.pick(&[4u64, 40, 400, 4000]); rng.below(m__) } as u32;
             let start = rng.below((65536 - len) as u64 + 1) as u32;
             v.extend(start..start + len);
         }
@@ -86,13 +86,13 @@ pub fn gen_glyph_set(rng: &mut Rng, shape: usize) -> Vec<u16> {
             }
         }
         11 => {
-            let n = 2 + rng.below(*rng.pick(&[8u64, 100, 1500])) as usize;
+            let n = 2 + { let m__ = *rng.pick(&[8u64, 100, 1500]); rng.below(m__) } as usize;
             for _ in 0..n {
                 v.push(rng.below(65536) as u32);
             }
         }
         12 | 19 => {
-            let w = 10 + rng.below(*rng.pick(&[50u64, 1000, 20000])) as u32;
+            let w = 10 + { let m__ = *rng.pick(&[50u64, 1000, 20000]); rng.below(m__) } as u32;
             let start = rng.below((65536 - w) as u64) as u32;
             let p = if shape % N_SHAPES == 19 {
                 90 + rng.below(10)
@@ -114,7 +114,7 @@ pub fn gen_glyph_set(rng: &mut Rng, shape: usize) -> Vec<u16> {
                     break;
                 }
                 v.extend(g..g + run);
-                g += run + 1 + rng.below(*rng.pick(&[2u64, 10, 600])) as u32;
+                g += run + 1 + { let m__ = *rng.pick(&[2u64, 10, 600]); rng.below(m__) } as u32;
             }
         }
         14 => v.extend(0..65536u32),
@@ -239,7 +239,7 @@ pub fn coverage_case(ctx: &mut Ctx, idx: usize, rng: &mut Rng) {
             return;
         }
     };
-    let mut fail = |ctx: &mut Ctx, what: &str, detail: serde_json::Value| {
+    let fail = |ctx: &mut Ctx, what: &str, detail: serde_json::Value| {
         ctx.violation(
             &format!("coverage:{}:{}", what, label),
             json!({"case": label, "what": what, "set": sample_set(&set), "detail": detail}),
@@ -309,28 +309,36 @@ pub fn coverage_case(ctx: &mut Ctx, idx: usize, rng: &mut Rng) {
     }
     let full = idx % 3 == 0 || set.len() > 20000;
     let ids = sweep_ids(rng, &set, full);
-    let r = guard(|| {
-        for g in &ids {
-            let want = set.binary_search(g).ok().map(|i| i as u16);
-            let got = rcov.get(GlyphId16::new(*g));
-            if got != want {
-                return Some((*g, got, want));
+    // a library panic on one glyph id is reported (once per site) and the sweep goes on
+    let mut mismatch = None;
+    let mut panics: Vec<vf_core::PanicInfo> = vec![];
+    let mut n_panics = 0u64;
+    for g in &ids {
+        let want = set.binary_search(g).ok().map(|i| i as u16);
+        match guard(|| rcov.get(GlyphId16::new(*g))) {
+            Ok(got) => {
+                if got != want {
+                    mismatch = Some((*g, got, want));
+                    break;
+                }
+            }
+            Err(p) => {
+                n_panics += 1;
+                if !panics.iter().any(|q| q.signature() == p.signature()) {
+                    panics.push(p);
+                }
             }
         }
-        None
-    });
+    }
     ctx.evals(ids.len() as u64);
     ctx.count("coverage_glyph_queries", ids.len() as u64);
-    match r {
-        Ok(None) => {}
-        Ok(Some((g, got, want))) => {
-            fail(ctx, "get", json!({"glyph": g, "got": got, "want": want, "format": fmt}));
-            return;
-        }
-        Err(p) => {
-            ctx.judge_panic(&p, "CoverageTable::get", json!({"case": label}), Some(&bytes));
-            return;
-        }
+    ctx.count("coverage_get_panics", n_panics);
+    for p in &panics {
+        ctx.judge_panic(p, "CoverageTable::get", json!({"case": label, "format": fmt, "set": sample_set(&set)}), Some(&bytes));
+    }
+    if let Some((g, got, want)) = mismatch {
+        fail(ctx, "get", json!({"glyph": g, "got": got, "want": want, "format": fmt}));
+        return;
     }
     // out-of-u16 glyph ids are never covered
     for g in [0x10000u32, 0x10000 + set.first().copied().unwrap_or(0) as u32, 0xFFFFFF] {
@@ -454,7 +462,7 @@ fn partition(rng: &mut Rng, set: &[u16], style: usize) -> Vec<Vec<u16>> {
     if set.is_empty() {
         return vec![];
     }
-    let k = 1 + rng.usize((set.len()).min(*rng.pick(&[3usize, 12, 60, 300])));
+    let k = 1 + { let m__ = *rng.pick(&[3usize, 12, 60, 300]); rng.usize(set.len().min(m__)) };
     let mut classes: Vec<Vec<u16>> = vec![vec![]; k];
     match style % 3 {
         0 => {
